@@ -135,6 +135,11 @@ def _raw(measure, a, b):
         return _L.get_raw_score(a, b)
     if measure == 'LEN_DIFF':
         return abs(len(a) - len(b))
+    if measure == 'CONTAINMENT':
+        # not symmetric: share of the first argument's tokens found in the
+        # second
+        sa = set(a)
+        return (len(sa & set(b)) / float(len(sa))) if sa else 0.0
     raise ValueError(measure)
 
 
@@ -173,9 +178,15 @@ def fn_len_diff(a, b):
     return _raw('LEN_DIFF', a, b)
 
 
+def fn_containment(a, b):
+    ENV.on_sim('CONTAINMENT')
+    return _raw('CONTAINMENT', a, b)
+
+
 PLAIN = {'JACCARD': fn_jaccard, 'COSINE': fn_cosine, 'DICE': fn_dice,
          'OVERLAP_COEFFICIENT': fn_overlap_coefficient, 'OVERLAP': fn_overlap,
-         'EDIT_DISTANCE': fn_edit_distance, 'LEN_DIFF': fn_len_diff}
+         'EDIT_DISTANCE': fn_edit_distance, 'LEN_DIFF': fn_len_diff,
+         'CONTAINMENT': fn_containment}
 
 
 class SimMeasure(object):
